@@ -12,7 +12,7 @@ import (
 func init() { register("C03", propC03) }
 
 func propC03(r *Report, tier string) {
-	r.Explanation = "Ordering clauses of the durability protocol (not recovery contents), decided on every path of the anchored functions: (a) snapshot persister: prepareBoltSnapshot (all segment writes) -> tx.Commit -> rootBolt.Sync on every success path, rollback deferred for every failure exit, ineligible marks cleared only after Commit; (b) persister loop: batch waiters released and persisted-callbacks invoked only after persistSnapshot returned, error delivered before close, callbacks only on success and retained on failure, waiters taken in the same critical section as the root; (c) prepareSegment waits for applied then persisted (channel created iff safe-batch) and returns the persisted error; the introducer registers the waiter in the same write critical section that swaps the root; (d) merge products are marked ineligible before MergeUsing creates them and un-marked only on failure/skip; (e) bolt key agreement: every key read on open/rollback is written by prepareBoltSnapshot with matching writer/reader nil-ness; (f) on open, loadFromBolt and the open-phase purge complete before any background loop starts. (h) un-marking in the introducers: names are queued for un-marking only on paths that do not carry that segment into the new root, and un-marked after the root swap."
+	r.Explanation = "Ordering clauses of the durability protocol (not recovery contents), decided on every path of the anchored functions: (a) snapshot persister: prepareBoltSnapshot (all segment writes) -> tx.Commit -> rootBolt.Sync on every success path, rollback deferred for every failure exit, ineligible marks cleared only after Commit; (b) persister loop: batch waiters released and persisted-callbacks invoked only after persistSnapshot returned, error delivered before close, callbacks only on success and retained on failure, waiters taken in the same critical section as the root; (c) prepareSegment waits for applied then persisted (channel created iff safe-batch) and returns the persisted error; the introducer registers the waiter in the same write critical section that swaps the root; (d) merge products are marked ineligible before MergeUsing creates them and un-marked only on failure/skip; (e) bolt key agreement: every key read on open/rollback is written by prepareBoltSnapshot with matching writer/reader nil-ness; (f) on open, loadFromBolt and the open-phase purge complete before any background loop starts. (h) un-marking in the introducers: names are queued for un-marking only on paths that do not carry that segment into the new root, and un-marked after the root swap. (i) Kerr error discipline over package scorch: no error-returning call is used as a statement or assigned to _ unless the callee is a clean-up operation (Close, DecRef, Rollback, ...; four named read-side exceptions), every error stored in a variable is read on some path before being overwritten, and deferred closures store outcomes only into named results."
 	r.NotCovered = "what a reopened index contains; torn files; bbolt/zapx fsync behaviour (trusted); index_meta.json durability; unsafe-batch callback timing beyond (b)"
 	r.Trusted = []string{"bbolt Tx.Commit is atomic and durable after DB.Sync", "zapx Persist/MergeUsing fsync the segment file before returning", "go/types callee resolution, go/cfg"}
 	ruleSnapshotPersisterOrder(r, "K5-persist-order")
@@ -20,6 +20,7 @@ func propC03(r *Report, tier string) {
 	rulePrepareSegmentWaits(r, "K5-batch-waits")
 	ruleMarkBeforeCreate(r, "K5-mark-before-create")
 	ruleUnmarkAfterCommit(r, "K5-unmark-after-commit")
+	ruleErrorsLookedAt(r, "Kerr-errors-looked-at", func(rel string) bool { return rel == "index/scorch" }, errAllowScorch)
 	ruleInMemoryMergeCoverage(r, "K14-memmerge-coverage")
 	ruleBoltKeyAgreement(r, "K11-bolt-keys")
 	ruleOpenPhaseOrder(r, "K5-open-phase")
@@ -933,4 +934,12 @@ func definedAsLenOfParam(info *types.Info, fi *FuncInfo, obj types.Object) bool 
 		return true
 	})
 	return found
+}
+
+// one named call site each: errors the tree deliberately ignores outside the clean-up set
+var errAllowScorch = map[string]string{
+	"index/scorch.(*Scorch).loadSegment/Get":                       "BoltBucketImpl.Get returns nil bytes together with any error; the nil test that follows reports 'segment path missing', so the failure is not silent (only its text is lost)",
+	"index/scorch.(*IndexSnapshotFieldDict).Contains/Contains":     "read-side dictionary probe (not on the durability path): a vellum error only arises from a corrupt FST and is answered as 'not contained'",
+	"index/scorch.(*IndexSnapshotThesaurusKeys).Contains/Contains": "read-side thesaurus probe (not on the durability path): same as FieldDict.Contains",
+	"index/scorch.(*IndexSnapshot).CopyTo$1/err":                   "Close error of the backup's bolt file after a successful Commit+Sync: the copy is already durable; the dead store means the Close error is not reported (harmless here, same shape as the repaired F13)",
 }
